@@ -15,6 +15,7 @@
 package nutsdb
 
 import (
+	"bytes"
 	"errors"
 	"fmt"
 	"io"
@@ -22,6 +23,7 @@ import (
 	"os"
 	"path"
 	"sort"
+	"strconv"
 	"strings"
 	"sync"
 
@@ -989,8 +991,16 @@ func (db *DB) getPendingMergeEntries(entry *Entry, pendingMergeEntries []*Entry)
 		keyAndScore := strings.Split(string(entry.Key), SeparatorForZSetKey)
 		if len(keyAndScore) == 2 {
 			key := keyAndScore[0]
-			if idx, ok := db.SortedSetIdx[string(entry.Meta.bucket)]; ok && idx.GetByKey(key) != nil {
-				pendingMergeEntries = append(pendingMergeEntries, entry)
+			if idx, ok := db.SortedSetIdx[string(entry.Meta.bucket)]; ok {
+				// Only the record that holds the member's current score and value is
+				// rewritten. A superseded ZAdd copied into a newer segment would win
+				// over the live one on the next Open if the merge did not get as far
+				// as the live record's segment (crash, error).
+				n := idx.GetByKey(key)
+				if n != nil && keyAndScore[1] == strconv.FormatFloat(float64(n.Score()), 'f', -1, 64) &&
+					bytes.Equal(n.Value, entry.Value) {
+					pendingMergeEntries = append(pendingMergeEntries, entry)
+				}
 			}
 		}
 	}
